@@ -67,7 +67,8 @@ func c03scalar(r *rand.Rand) interface{} {
 		}
 		if r.Intn(6) == 0 {
 			// the other number types the encoder documents ("%v" formatting), and float64 values at formatting boundaries
-			return []interface{}{42, int64(math.MaxInt64), int32(-7), float32(1.5), float32(0.1), math.Copysign(0, -1), 1e20, 1e21, 9007199254740993.0, int64(math.MinInt64), 123456789012345678.0}[r.Intn(11)]
+			return []interface{}{42, int64(math.MaxInt64), int32(-7), float32(1.5), float32(0.1), math.Copysign(0, -1), 1e20, 1e21, 9007199254740993.0, int64(math.MinInt64), 123456789012345678.0,
+				uint64(math.MaxUint64), uint64(1 << 63), uint(7), uint8(200), int8(-5), int16(-300), uint32(4000000000)}[r.Intn(18)] // (what a cast decode with CastValuesToInt leaves in a Map: uint64 for large values)
 		}
 		return []float64{0, 1, -1.5, 1e21, 1e-7, 123456789.125, 3}[r.Intn(7)]
 	default:
@@ -101,6 +102,10 @@ func c03gen(r *rand.Rand, depth int, st *c03stats) interface{} {
 		na := r.Intn(3)
 		for i := 0; i < na; i++ {
 			v := c03scalar(r)
+			switch v.(type) {
+			case uint64, uint, uint8, int8, int16, uint32:
+				v = "nn" // (the encoder documents string, bool, float64, int, int32, int64, float32 for attribute values)
+			}
 			if v == nil {
 				if r.Intn(4) != 0 {
 					v = "nn"
@@ -139,7 +144,7 @@ func c03gen(r *rand.Rand, depth int, st *c03stats) interface{} {
 
 func hasJSONNumber(v interface{}) bool {
 	switch t := v.(type) {
-	case json.Number, int, int32, int64, float32:
+	case json.Number, int, int32, int64, float32, uint64, uint, uint8, int8, int16, uint32:
 		return true // (number types a JSON text round trip does not preserve)
 	case map[string]interface{}:
 		for _, e := range t {
